@@ -142,7 +142,10 @@ def do_replay(pid, path):
         init()
     with open(path) as f:
         rep = json.load(f)
-    vios = eng.replay_case(rep['case'])
+    try:
+        vios = eng.replay_case(rep['case'], expect=rep['signature'])
+    except TypeError:
+        vios = eng.replay_case(rep['case'])
     sigs = [v['sig'] for v in vios]
     print('replay %s: recorded signature %r, reproduced signatures %r' % (path, rep['signature'], sigs))
     for v in vios:
